@@ -66,6 +66,7 @@ type FuncContract struct {
 	File      string
 	Line      int
 	Opaque    []string // callee keys that must not be inlined (treated as havoc)
+	Reveal    []string // recursive spec functions whose definition is visible in this task
 	Timeout   int
 }
 
@@ -93,6 +94,7 @@ type Lemma struct {
 	Assumes []*Clause
 	Asserts []*Clause
 	Splits  []Split
+	Reveal  []string
 	File    string
 	Line    int
 }
@@ -109,6 +111,7 @@ type Pair struct {
 	File     string
 	Line     int
 	Timeout  int
+	Reveal   []string
 	LeftPkg  string
 	RightPkg string
 }
@@ -329,6 +332,15 @@ func (cs *Contracts) loadContractFile(path, pkgPath string) {
 		case "opaque":
 			if curF != nil {
 				curF.Opaque = append(curF.Opaque, strings.Fields(rest)...)
+			}
+		case "reveal":
+			switch {
+			case curLemma != nil:
+				curLemma.Reveal = append(curLemma.Reveal, strings.Fields(rest)...)
+			case curPair != nil:
+				curPair.Reveal = append(curPair.Reveal, strings.Fields(rest)...)
+			case curF != nil:
+				curF.Reveal = append(curF.Reveal, strings.Fields(rest)...)
 			}
 		case "timeout":
 			k, _ := strconv.Atoi(rest)
